@@ -35,13 +35,19 @@ def run(chk):
     nrand = 1500 if chk.tier == "quick" else 20000
     # ---- implementation side
     rand = gen_random(chk, nrand)
-    refs = ["", "a", "a/", "/", "x/y", "INBOX", "inbox/"]
+    refs = ["", "a", "a/", "/", "x/y", "INBOX", "inbox/", "%", "*", "a%", "%/", "a*/", "W%/", "*/b"]
     canon_cases = [(r, p) for r in refs for p in ["", "*", "%", "/a", "a/*", "b%", "INBOX", "in*"]]
     names_sets = [["INBOX", "Sent", "Drafts", "a", "a/b", "a/b/c", "B", "x y"], ["INBOX"], ["INBOX", "in", "inb/ox", "*lit"]]
     filt_cases = []
     for ns in names_sets:
         for (r, p) in canon_cases + [("", "i*"), ("", "I%"), ("", "%/%"), ("a", "%"), ("", "*b*")]:
             filt_cases.append((r, p, ns))
+    import itertools
+    grid_alpha = "a/*%"
+    grid = ["".join(t) for k in range(0, 4) for t in itertools.product(grid_alpha, repeat=k)]
+    grid_names = ["INBOX", "a", "a/a", "a/a/a", "aa", "/a", "a/", "b", "a/b"]
+    grid_cases = [(r, p, grid_names) for r in grid for p in grid]          # 85 x 85 = 7225 (reference, pattern) pairs, exhaustive up to length 3
+    filt_cases = filt_cases + grid_cases
     ops = [
         {"op": "enum_match", "alpha": ALPHA, "L": L},
         {"op": "batch", "fn": "MatchWildcard", "cases": [{"a": [C.latin(t.encode("latin-1") if isinstance(t, str) else t), C.latin(p)]} for (p, t) in rand]},
